@@ -113,8 +113,9 @@ def hor(f):
     return m
 
 
-def rho(A, f, w, n):
-    """robustness signal of f over trace w (dict var -> list of n values); list of n values"""
+def rho(A, f, w, n, pred=None):
+    """robustness signal of f over trace w (dict var -> list of n values); list of n values.
+    pred(f, p, q, t) -> value or None overrides the robustness of predicate f (IA-STL)."""
     f = T(f)
     k = f[0]
     R = range(n)
@@ -125,12 +126,16 @@ def rho(A, f, w, n):
     if k == 'const':
         return [L(f[1])] * n
     if k == 'raw':
-        return rho(A, f[2], w, n)
+        return rho(A, f[2], w, n, pred)
     if k in UN or k in UNT:
-        p = rho(A, f[1], w, n)
+        p = rho(A, f[1], w, n, pred)
     else:
-        p = rho(A, f[1], w, n)
-        q = rho(A, f[2], w, n)
+        p = rho(A, f[1], w, n, pred)
+        q = rho(A, f[2], w, n, pred)
+    if pred is not None and k in PRED:
+        ov = [pred(f, p[t], q[t]) for t in R]
+        if ov[0] is not None:
+            return ov
     if k in ('not', 'neg'):
         return [-p[t] for t in R]
     if k == 'abs':
@@ -214,10 +219,10 @@ def rho(A, f, w, n):
         return [mx([mn([q[tp]] + [p[tpp] for tpp in range(t, tp)])
                     for tp in range(t + a, min(t + b, n - 1) + 1)]) for t in R]
     if k == 'unless':
-        return rho(A, ('or', ('always', f[1]), ('until', f[1], f[2])), w, n)
+        return rho(A, ('or', ('always', f[1]), ('until', f[1], f[2])), w, n, pred)
     if k == 'unless_t':
         a, b = f[3], f[4]
-        return rho(A, ('or', ('always_t', f[1], 0, b), ('until_t', f[1], f[2], a, b)), w, n)
+        return rho(A, ('or', ('always_t', f[1], 0, b), ('until_t', f[1], f[2], a, b)), w, n, pred)
     raise KeyError(k)
 
 
@@ -389,3 +394,30 @@ def depth2(ops_outer, ops_inner, bounds):
             for i in inner:
                 out.extend(inst(k, i, Z, bd))
     return out
+
+
+def pred_sat(A, k, p, q):
+    """Boolean satisfaction of the predicate p k q"""
+    if k == 'leq': return A.le(p, q)
+    if k == 'lt': return A.lt(p, q)
+    if k == 'geq': return A.le(q, p)
+    if k == 'gt': return A.lt(q, p)
+    if k == 'eq': return A.eq(p, q)
+    if k == 'neq': return A.Not(A.eq(p, q))
+    raise KeyError(k)
+
+
+def ia_pred(A, semantics, inputs, outputs):
+    """README_extensions: predicate override for the interface-aware semantics.
+    semantics in standard/output_robustness/input_robustness/output_vacuity/input_vacuity"""
+    def hook(f, p, q):
+        if semantics == 'standard':
+            return None
+        vs = variables(f)
+        watch = outputs if semantics.startswith('output') else inputs
+        if vs & set(watch):
+            return None
+        if semantics.endswith('vacuity'):
+            return A.lift(0)
+        return A.ite(pred_sat(A, f[0], p, q), INF, -INF)
+    return hook
